@@ -145,7 +145,7 @@ impl<'transient, 'lifespan: 'transient, 'element> ElementSpecification<'element>
         periodic_table: &'lifespan PeriodicTable,
     ) -> Result<ElementSpecification<'lifespan>, ElementSpecificationParsingError> {
         let (elt_sym, isotope) = match string.find('[') {
-            None => (string, 0),
+            None => (string, None),
             Some(i) => {
                 let digits = string[i + 1..]
                     .strip_suffix(']')
@@ -156,15 +156,17 @@ impl<'transient, 'lifespan: 'transient, 'element> ElementSpecification<'element>
                 let isotope = digits
                     .parse::<u16>()
                     .map_err(|_| ElementSpecificationParsingError::UnclosedIsotope)?;
-                (&string[..i], isotope)
+                (&string[..i], Some(isotope))
             }
         };
         let element = periodic_table
             .get(elt_sym)
             .ok_or(ElementSpecificationParsingError::UnknownElement)?;
-        if isotope != 0 && !element.isotopes.contains_key(&isotope) {
-            return Err(ElementSpecificationParsingError::UnknownElement);
-        }
+        let isotope = match isotope {
+            None => 0,
+            Some(n) if element.isotopes.contains_key(&n) => n,
+            Some(_) => return Err(ElementSpecificationParsingError::UnknownElement),
+        };
         Ok(ElementSpecification::new(element, isotope))
     }
 }
